@@ -1,11 +1,47 @@
-NOTE_COMMON = "trusted base: CPython 3.12 (str, re, json, sys.monitoring), pycountry's ISO 3166-1 data file, the reference models in vf/ref (written independently of the library; data re-read from the tree each run). Verdict is about the executions produced, never 'verified'."
+NOTE = "trusted base: CPython 3.12 (str, re, json, threading, sys.monitoring), pycountry's ISO 3166-1 data file, rstr, and the reference models in vf/ref (written independently of the library; registry data re-read from the tree on every run). The verdict is about the executions produced (held on K observed cases), never 'verified'."
 
+
+def c(technique, text, ref, note=NOTE):
+    return {"technique": technique, "text": text, "note": note, "design_ref": ref}
+
+
+RM = "runtime monitoring: "
 CHECKS = {
-    "C01": {
-        "technique": "runtime monitoring: boundary recorder + independent ISO 13616 reference oracle over seeded hostile workloads",
-        "text": "every IBAN(text) / validate() / is_valid call of eight workload families (per-country valid corpus, position x wide-alphabet sweep, lengths 0..40, all 100 check-digit pairs, all 676 prefixes, decoration, hostile Unicode, edit fuzz) is judged against a three-valued reference; finite sub-spaces are enumerated, the rest sampled with a seeded generator",
-        "note": NOTE_COMMON,
-        "design_ref": "DESIGN.md §5 C01",
-    },
+    "C01": c(RM + "boundary recorder + independent ISO 13616 reference oracle (three-valued) over seeded hostile workloads",
+             "every IBAN(text) / validate() / is_valid call of eight workload families (per-country valid corpus, position x wide-alphabet sweep with recomputed check digits, lengths 0..40, all 100 check-digit pairs, all 676 prefixes, decoration, hostile Unicode, edit fuzz) is judged against R-IBAN; finite sub-spaces enumerated, the rest sampled with a seeded generator", "DESIGN.md §5 C01"),
+    "C02": c(RM + "boundary recorder + ISO 7064 reference; full enumeration of the 100 check-digit pairs per BBAN",
+             "per country, BBANs incl. ones forced by the reference to have computed digits 02/03/97/98; from_bban result compared with the reference digits, and exactly the computed pair must be accepted among all 100", "DESIGN.md §5 C02"),
+    "C03": c(RM + "relational oracle over exhaustively enumerated single-character mutants of reference-valid IBANs",
+             "for each base IBAN of every country all same-kind substitutions at positions >= 2 and all adjacent same-kind transpositions are executed; any accepted mutant is a violation", "DESIGN.md §5 C03"),
+    "C04": c(RM + "boundary recorder + independent ISO 9362 reference oracle over seeded hostile workloads, both compliance modes",
+             "registry BICs, all 676 country pairs, position x wide-alphabet sweeps, lengths 0..14, decoration, hostile Unicode and edit fuzz judged against R-BIC through constructor, validate() and is_valid", "DESIGN.md §5 C04"),
+    "C05": c(RM + "totality monitor (only library exceptions may escape) + defect-set oracle for the raised class + entry-point agreement monitor",
+             "multi-defect and non-ASCII IBAN/BIC texts with every flag combination; the raised class must lie in the set allowed by the defects the reference finds present; is_valid never raises; constructor <=> validate <=> is_valid", "DESIGN.md §5 C05"),
+    "C06": c(RM + "boundary recorder at three entry points + independent national-algorithm reference (R-NAT) with reference-forced valid inputs",
+             "22 national algorithms judged on structure-conforming BBANs (half forced valid by the reference, twins differing only in the check field, library draws); other countries must be unaffected by the flag; success is True, failure raises", "DESIGN.md §5 C06"),
+    "C07": c(RM + "boundary recorder + independent Bundesbank-method reference (R-DE), direct and through the public API for every German bank code",
+             "39 methods on accounts of all significant lengths with the check position swept over all digits, range boundaries; every registry bank code through IBAN(..., validate_bban=True) with the method of its first registry entry; unlisted/unimplemented must accept", "DESIGN.md §5 C07"),
+    "C08": c(RM + "boundary recorder + placement model R-GEN (return exactly the modelled IBAN or the component-specific library error)",
+             "all countries x component strings of every length/character class through IBAN.generate and BBAN.from_components", "DESIGN.md §5 C08"),
+    "C09": c(RM + "relational monitors: computed digits must pass the library's own national validation and R-NAT; parse -> rebuild must reproduce the BBAN",
+             "19 computing countries via generate/random; every country with positions via reference-forced nationally valid IBANs decomposed and rebuilt", "DESIGN.md §5 C09"),
+    "C10": c(RM + "differential monitor: decorated variant vs base text through the parsing constructors; formatted/reparse round trip",
+             "whitespace (space, tab, LF, CR, FF, VT, NBSP) and case decorations of valid and invalid IBANs/BICs of every country must not change verdict or object; formatted equals the harness's own grouping and re-parses equal", "DESIGN.md §5 C10"),
+    "C11": c(RM + "invariant monitor on accepted objects against the positions the tree's data publish",
+             "every country's reference-valid IBANs and every registry BIC decomposed; components equal published slices, accessors of IBAN and BBAN agree, fields do not overlap, reassembly is equal", "DESIGN.md §5 C11"),
+    "C12": c(RM + "exhaustive enumeration of registry keys and BICs against R-LOOKUP, plus synthetic registries in scratch package copies (configurations)",
+             "all (country, bank code) keys, all BICs, unlisted pairs; candidates multiset and primary-first, selection rule, inversion, IBAN-level bank/bic/names; same monitors on hostile synthetic registries", "DESIGN.md §5 C12"),
+    "C13": c(RM + "boundary recorder + R-IBAN validity + pin monitor + cross-process digest comparison under several PYTHONHASHSEED values",
+             "every country x seeds x registry modes x pinned subsets; in-process and cross-process reproducibility; listed-bank monitor", "DESIGN.md §5 C13"),
+    "C14": c(RM + "deterministic thread scheduler on sys.monitoring (all single preemption points at line and instruction granularity), stress threads with 1us switch interval, cold-start runs; oracle = solo outcome",
+             "pairs of calls routed to the same shared object with different solo behaviour (classes forced by the reference) explored under every single preemption point; stress and cold-start runs compare every outcome with the solo outcome", "DESIGN.md §5 C14"),
+    "C15": c(RM + "history differ over fresh-interpreter histories + registry write barrier (dict/list subclasses) + SHA-256 fingerprints + write-open audit hook + object re-read",
+             "a pool of call descriptors built around collision families executed in canonical, reverse, permuted and pairwise histories and as first call of a fresh process; one outcome per descriptor required; no registry mutation event, fingerprint change or write-open", "DESIGN.md §5 C15"),
+    "C16": c(RM + "relational monitor: every operator on every ordered pair of a pool vs the same operator on the compact strings; copy/deepcopy/pickle state comparison",
+             "pool of valid/unvalidated IBANs, BICs, BBANs (equal values under different countries) and plain strings", "DESIGN.md §5 C16"),
+    "C17": c(RM + "exhaustive enumeration of the tree's country and bank entries with structural invariants and a reachability monitor through the real library",
+             "all country entries and all bank entries: length arithmetic, position bounds/overlap, algorithm field reads, BIC validity, bank-code class fit; IBAN built around every entry must be accepted and find the entry", "DESIGN.md §5 C17"),
+    "C18": c(RM + "reference-model comparison of merge_dicts on generated nested dicts; scenario harness (scratch package copies with overlay files) comparing effective tables with R-DATA and re-running C01/C08/C12 monitors on the scratch data",
+             "seeded + hypothesis nested dict pairs; scenarios with new countries, partial nested overrides, scalar<->dict conflicts, name-order fights between files, v2 bank files, bank files before/between/after the bundled ones", "DESIGN.md §5 C18"),
 }
 NOT_APPLICABLE = {}
